@@ -302,7 +302,7 @@ func C16(tier string) int {
 		maxTok = 7
 	}
 	tokens := []string{".", "\n", "\r\n", "a"}
-	run.Rule = fmt.Sprintf("all message bodies of <=%d tokens over {'.', LF, CRLF, 'a'} (and the empty body) x partitions into Write calls {one Write, one octet per Write, every 2-split} x server verdict {accept, reject} x {SMTP, LMTP}, cycling through 5 envelopes (plain; '%' in sender and recipients; atext specials; the null sender; mixed case with recipients differing in case only and an address literal), each a complete real-client -> real-server conversation in a synctest bubble (a client waiting for a reply that never comes is reported by the runtime as a deadlock). Distinct by construction; non-trivial = body contains '.' or a line break. Oracle: backend octets == ref.DotStuffNormalize(body) then EOF; envelope as given; Close returns the server's verdict; a second Close returns an error, writes nothing and causes no reply; the connection stays in step. Every body also against a server with MaxMessageBytes = every value 1..message size (one Write, accepting backend): over the limit Close returns 552 and the backend never sees a complete message, at the limit the message arrives intact. Every body also against an SMTP server whose backend sessions implement LMTPSession as well. Long sessions: {12 messages x 3 recipients, 2 x 60, 3 messages of 400 lines, 40 short messages} over ONE connection (many times the line limit and the buffer sizes in both directions). Labelled supplement: seeded random 8-bit bodies.", maxTok)
+	run.Rule = fmt.Sprintf("all message bodies of <=%d tokens over {'.', LF, CRLF, 'a'} (and the empty body) x partitions into Write calls {one Write, one octet per Write, every 2-split} x server verdict {accept, reject} x {SMTP, LMTP}, cycling through 5 envelopes (plain; '%%' in sender and recipients; atext specials; the null sender; mixed case with recipients differing in case only and an address literal), each a complete real-client -> real-server conversation in a synctest bubble (a client waiting for a reply that never comes is reported by the runtime as a deadlock). Distinct by construction; non-trivial = body contains '.' or a line break. Oracle: backend octets == ref.DotStuffNormalize(body) then EOF; envelope as given; Close returns the server's verdict; a second Close returns an error, writes nothing and causes no reply; the connection stays in step. Every body also against a server with MaxMessageBytes = every value 1..message size (one Write, accepting backend): over the limit Close returns 552 and the backend never sees a complete message, at the limit the message arrives intact. Every body also against an SMTP server whose backend sessions implement LMTPSession as well. Long sessions: {12 messages x 3 recipients, 2 x 60, 3 messages of 400 lines, 40 short messages} over ONE connection (many times the line limit and the buffer sizes in both directions). Labelled supplement: seeded random 8-bit bodies.", maxTok)
 	run.Assumptions = []string{"CR occurs only as part of CRLF (as the statement requires)", "an empty body arrives as a single CRLF ('final CRLF ensured')"}
 	var bodies [][]byte
 	var rec func(cur []byte, n int)
@@ -439,5 +439,8 @@ func C16(tier string) int {
 			run.Violate("c16-long", lcs[i], f, func() *h.Finding { return evalC16Long(lcs[i]) })
 		}
 	})
+	// histories of client calls (explicit-state search, checks/clientbfs.go)
+	run.Rule += clientSearchRule
+	clientSearch(run, "C16", 0)
 	return run.Finish()
 }
